@@ -1457,3 +1457,48 @@ theorem guard_expected {α : Type} [DecidableEq α] (gt : String) (dbl : Bool) (
   simp [expectedEnc_commonZ_c3 gt dbl cast gd c h]
 
 end HdVerif.Ann
+
+namespace HdVerif.Ann
+open HdVerif HdVerif.Gen
+
+/-- the accesses of an interleaved history that go to group `i` -/
+def projAcc (i : Nat) (accs : List (Nat × Access)) : List Access :=
+  accs.filterMap (fun p => if p.1 = i then some p.2 else none)
+
+/-- the answers of an interleaved history that came from group `i` -/
+def projAns {α : Type} (i : Nat) (rs : List (Nat × Except ErrKind (Obs α))) : List (Except ErrKind (Obs α)) :=
+  rs.filterMap (fun p => if p.1 = i then some p.2 else none)
+
+/-- **the groups of an instance do not interfere**: what group `i` answers within any interleaved history on the
+instance is what it answers to its own accesses alone -/
+theorem runInst_proj {α : Type} (i : Nat) (accs : List (Nat × Access)) : ∀ (gs : List (Group α)) (g : Group α),
+    gs[i]? = some g → projAns i (runInst gs accs) = runHistory g (projAcc i accs) := by
+  induction accs with
+  | nil => intro gs g _; rfl
+  | cons p rest ih =>
+    intro gs g hg
+    obtain ⟨j, a⟩ := p
+    have hlt : i < gs.length := by
+      rcases Nat.lt_or_ge i gs.length with hl | hl
+      · exact hl
+      · rw [List.getElem?_eq_none hl] at hg; cases hg
+    by_cases hj : j = i
+    · subst hj
+      have hs : stepInst gs j a = ((accessS g a).1, gs.set j (accessS g a).2) := by simp [stepInst, hg]
+      have hg' : (gs.set j (accessS g a).2)[j]? = some (accessS g a).2 := by simp [hlt]
+      simp only [runInst, projAns, projAcc, List.filterMap_cons, if_true, runHistory, hs]
+      have := ih (gs.set j (accessS g a).2) (accessS g a).2 hg'
+      simp only [projAns, projAcc] at this
+      rw [this]
+    · have hg' : (stepInst gs j a).2[i]? = some g := by
+        unfold stepInst
+        split
+        · exact hg
+        · simp only
+          rw [List.getElem?_set_ne hj]; exact hg
+      simp only [runInst, projAns, projAcc, List.filterMap_cons, hj, if_false]
+      have := ih (stepInst gs j a).2 g hg'
+      simp only [projAns, projAcc] at this
+      exact this
+
+end HdVerif.Ann
